@@ -33,10 +33,10 @@ def patch_spec(extra_modules=(), extra=None):
     return spec
 
 
-def symbolic_device(H, kind, seed=0, symbolic_mesh=True, gamma=None, u=None, lengths=True):
+def symbolic_device(H, kind, seed=0, symbolic_mesh=True, gamma=None, u=None, lengths=True, length_band=None):
     dev = meshes.get_device(kind, seed)
     if symbolic_mesh:
-        meshes.symbolise(dev.mesh, H, lengths=lengths)
+        meshes.symbolise(dev.mesh, H, lengths=lengths, length_band=length_band)
     if gamma is not None:
         dev.layer.gamma = gamma
     if u is not None:
